@@ -202,7 +202,8 @@ Inductive hop :=
 | ORun (t : Z)                   (* thread t runs all its remaining labels *)
 | OFlush                         (* Storage.Flush() *)
 | OSnap (ids : list Z)           (* the whole cache in key order + LoadRegion of these ids *)
-| OSaveRaw (r : region).         (* Storage.SaveRegion called by the harness itself (ballast in the write-back batch) *)
+| OSaveRaw (r : region)          (* Storage.SaveRegion called by the harness itself (ballast in the write-back batch) *)
+| OReload.                       (* PD restarts: a fresh cache filled by Storage.LoadRegions (regions without leader, term, statistics) *)
 
 Record cdig := CDig { d_id : Z; d_start : key; d_end : key; d_ver : Z; d_conf : Z; d_term : Z; d_leader : Z; d_stamp : Z }.
 Record sdig := SDig { sd_id : Z; sd_start : key; sd_end : key; sd_ver : Z; sd_conf : Z }.
@@ -223,6 +224,23 @@ Definition snapshot (h : hstate) (ids : list Z) : hobs :=
                         end) (scan (h_cache h) [] [] 0))
          (flat_map (fun id => match load_region (h_store h) id with Some x => [sdig_of x] | None => [] end) ids).
 
+(* a restart: NewRegionInfo(meta, nil) for every record of the kv in key (= id) order, through CheckAndPutLoadedRegion into an
+   empty cache; what that returns (the regions the loaded one displaced, or the loaded region itself when it is stale) is
+   deleted from storage by the load *)
+Definition loaded (r : region) : region :=
+  Region (r_id r) (r_start r) (r_end r) (r_peers r) 0 [] 0 (r_ver r) (r_confver r) 0 0.
+Fixpoint ins_by_id (x : Z * region) (l : kvmap) : kvmap :=
+  match l with [] => [x] | y :: t => if fst x <? fst y then x :: y :: t else y :: ins_by_id x t end.
+Definition sort_kv (l : kvmap) : kvmap := fold_right ins_by_id [] l.
+Definition reload (s : storage) : rinfo * storage :=
+  fold_left (fun (acc : rinfo * storage) (kv : Z * region) =>
+               let '(c, st) := acc in
+               let r := loaded (snd kv) in
+               let '(_, err) := precheck c r in
+               if err then (c, delete_region st r)
+               else let '(c', ov) := put_region c r in (c', fold_left delete_region ov st))
+            (sort_kv (s_kv s)) (ri_empty, s).
+
 Definition h_step (h : hstate) (o : hop) : hstate * hobs :=
   match o with
   | OHb r => let '(h', res) := heartbeat h r in (h', HoRes res)
@@ -232,6 +250,10 @@ Definition h_step (h : hstate) (o : hop) : hstate * hobs :=
   | OFlush => (HState (h_cache h) (flush (h_store h)) (h_threads h), HoUnit)
   | OSnap ids => (h, snapshot h ids)
   | OSaveRaw r => (HState (h_cache h) (save_region (h_store h) r) (h_threads h), HoUnit)
+  | OReload => match h_threads h with
+               | [] => let '(c, st) := reload (h_store h) in (HState c st [], HoUnit)
+               | _ => (h, HoRes HBad)          (* the harness restarts only when no heartbeat is in flight *)
+               end
   end.
 
 Fixpoint h_run (h : hstate) (ops : list hop) : list hobs :=
@@ -331,7 +353,7 @@ Definition remove_all (ids : list Z) (l : list Z) : list Z := filter (fun x => n
 Definition judge (wb : bool) (m : mon) (o : hop) (b : hobs) (c1 : list cdig) (s1 : list sdig) : option string :=
   let c0 := m_cache m in let s0 := m_stor m in
   if negb (chain_ok c1 && ranges_ok c1) then Some "C06:overlapping-regions-served"
-  else match epoch_step_ok c0 c1 with
+  else match (match o with OReload => None | _ => epoch_step_ok c0 c1 end) with
   | Some sg => Some sg
   | None =>
     let region_of := match o with
@@ -369,8 +391,10 @@ Definition mon_step (wb : bool) (m : mon) (o : hop) (b : hobs) : mon * option st
           (* storage clause: sequential histories only; with the write-back backend judged right after a flush *)
           let judge_storage := seq && (negb wb || match o0 with OFlush => true | _ => false end) in
           let bad_storage := judge_storage && existsb (fun s => existsb (Z.eqb (sd_id s)) gone) s1 in
-          let term_back := existsb (fun a => d_term a <? zz_get (m_maxterm m) (d_id a)) c1 in
-          let maxterm := map (fun a => (d_id a, Z.max (d_term a) (zz_get (m_maxterm m) (d_id a)))) c1 in
+          let restart := match o0 with OReload => true | _ => false end in   (* the raft terms are not persisted *)
+          let term_back := negb restart && existsb (fun a => d_term a <? zz_get (m_maxterm m) (d_id a)) c1 in
+          let maxterm := if restart then map (fun a => (d_id a, d_term a)) c1
+                         else map (fun a => (d_id a, Z.max (d_term a) (zz_get (m_maxterm m) (d_id a)))) c1 in
           (* storage never holds the record of a heartbeat that was rejected, or not (yet) accepted: the storage writes of a
              heartbeat come after its locked section *)
           let ok_res := match b0 with HoRes HErr | HoRes HBad => false | _ => true end in
@@ -434,14 +458,15 @@ Definition ever_upd (ever : list (Z * (Z * Z))) (c1 : list cdig) : list (Z * (Z 
   fold_left (fun acc a => match regs_get2 acc (d_id a) with
                           | Some (v, t) => regs_put2 acc (d_id a) (Z.max v (d_ver a), Z.max t (d_term a))
                           | None => (d_id a, (d_ver a, d_term a)) :: acc end) c1 ever.
-Fixpoint gap_run (ever : list (Z * (Z * Z))) (obs : list hobs) : bool :=
-  match obs with
-  | [] => false
-  | HoSnap c1 _ :: r => if ever_older ever c1 then true else gap_run (ever_upd ever c1) r
-  | _ :: r => gap_run ever r
+Fixpoint gap_run (ever : list (Z * (Z * Z))) (ops : list hop) (obs : list hobs) : bool :=
+  match ops, obs with
+  | OReload :: ro, _ :: r => gap_run [] ro r       (* a restart: what the old process served is not remembered by design *)
+  | _ :: ro, HoSnap c1 _ :: r => if ever_older ever c1 then true else gap_run (ever_upd ever c1) ro r
+  | _ :: ro, _ :: r => gap_run ever ro r
+  | _, _ => false
   end.
 Definition h_gap_monitor (ops : list hop) (obs : list hobs) : option string :=
-  if forallb hop_wf ops && gap_run [] obs
+  if forallb hop_wf ops && gap_run [] ops obs
   then Some "C06:region-served-again-older-than-it-was-served-before-its-displacement" else None.
 
 (* ---------------------------------------------------------------------------------------- *)
